@@ -278,7 +278,8 @@ def build_handles(a, rundir):
     hdir = os.path.join(BUILD, "handles")
     os.makedirs(hdir, exist_ok=True)
     for f in os.listdir(hdir):
-        os.unlink(os.path.join(hdir, f))
+        if os.path.isfile(os.path.join(hdir, f)):
+            os.unlink(os.path.join(hdir, f))
     shutil.copyfile(os.path.join(VERIF, "handles", "driver.go.txt"), os.path.join(hdir, "driver.go"))
     shutil.copyfile(os.path.join(VERIF, "handles", "go.mod.txt"), os.path.join(hdir, "go.mod"))
     shutil.copyfile(os.path.join(REPO, "go.sum"), os.path.join(hdir, "go.sum"))
@@ -288,6 +289,27 @@ def build_handles(a, rundir):
     if rc != 0:
         log(out)
         return [("build", "go build -race handles driver (storage.go, uuid.go from /repo)", out[-1500:])]
+    # the same two files, instrumented (a yield before every statement, cooperative locks and
+    # atomics), with the deterministic scheduler: build/handles/sched/hsched
+    idir = os.path.join(VERIF, "tools", "instrument")
+    rc, out = sh(["go", "build", "-o", os.path.join(BUILD, "instrument"), "."], cwd=idir, env=GOENV)
+    if rc != 0:
+        return [("build", "go build tools/instrument", out[-1500:])]
+    sdir = os.path.join(hdir, "sched")
+    shutil.rmtree(sdir, ignore_errors=True)
+    os.makedirs(sdir)
+    for f in ("storage.go", "uuid.go"):
+        rc, out = sh([os.path.join(BUILD, "instrument"), os.path.join(REPO, "exp", "cpp", "export", f), os.path.join(sdir, f)])
+        if rc != 0:
+            return [("tie", "tools/instrument cannot rewrite " + f, out[-1500:])]
+    shutil.copyfile(os.path.join(VERIF, "handles", "sched.go.txt"), os.path.join(sdir, "sched.go"))
+    shutil.copyfile(os.path.join(VERIF, "handles", "schedrv.go.txt"), os.path.join(sdir, "schedrv.go"))
+    shutil.copyfile(os.path.join(VERIF, "handles", "go.mod.txt"), os.path.join(sdir, "go.mod"))
+    shutil.copyfile(os.path.join(REPO, "go.sum"), os.path.join(sdir, "go.sum"))
+    rc, out = sh(["go", "build", "-tags", "verif", "-o", "hsched", "."], cwd=sdir, env=GOENV)
+    if rc != 0:
+        log(out)
+        return [("build", "go build instrumented handle table + scheduler (an operation of sync / atomic the scheduler does not know?)", out[-1500:])]
     return []
 
 
@@ -468,7 +490,7 @@ def main(argv):
             log("  correspondence break:", cb[0][:300], "\n    impl :", cb[1][:600], "\n    model:", cb[2][:600])
         for k in range(1, 5):
             try:
-                ops = gen_ops(pid, a.seed * 31 + 1000 + k, max(n, 20000), k == 1)
+                ops = gen_ops(pid, a.seed * 31 + 1000 + k, cfg.get("search_n", max(n, 20000)), k == 1 and not cfg.get("search_n"))
             except Exception as ex:     # generator itself may be hit by the change
                 log("generator:", ex)
                 break
